@@ -29,7 +29,7 @@ PROPS = {
     "C07": dict(
         level="fault_enumeration",
         technique="model-based stateful property testing (rapid) with generated fault plans (before-effect, after-effect, partial, quota/exhaustion codes) and request cancellation; pool state compared with simulator ground truth at quiescent points",
-        rule="histories as C01 with fault plans and cancelled requests emphasised (incl. 'cancelled create': an interface creation that takes long, fails after it took effect, and whose requester is cancelled before it returns; slow create / unassign calls), followed by a settle phase; factory level (TestVerifC07Factory): node histories of Create/Assign/UnAssign/Delete through the real Aliyun factory over a fake OpenAPI and metadata service, with before/after/partial OpenAPI faults and hide/lag/error/ghost/cancel metadata faults, a ledger built from the return values as eni.Local consumes them, cloud subset-of ledger after every call; non-trivial = history with at least one after-effect or partial fault, or a cancelled request; distinct = distinct scenario hash; the production Aliyun factory is driven separately (TestVerifC07Factory / TestVerifC07FactoryAttached): node histories of create/assign/unassign/delete/load calls over a fake OpenAPI and metadata service, plus LoadNetworkInterface with per-family lookup failures inside the node histories, and a one-node test of GetAttachedNetworkInterface with listing / per-interface lookup failures: an answer without error lists exactly what the metadata fake holds; any failed lookup yields an error",
+        rule="histories as C01 with fault plans and cancelled requests emphasised (incl. 'faulted shrink': balancer passes while the next unassign call of one family fails before it takes effect and the other family's call of the same round succeeds; 'cancelled create': an interface creation that takes long, fails after it took effect, and whose requester is cancelled before it returns; slow create / unassign calls), followed by a settle phase; factory level (TestVerifC07Factory): node histories of Create/Assign/UnAssign/Delete through the real Aliyun factory over a fake OpenAPI and metadata service, with before/after/partial OpenAPI faults and hide/lag/error/ghost/cancel metadata faults, a ledger built from the return values as eni.Local consumes them, cloud subset-of ledger after every call; non-trivial = history with at least one after-effect or partial fault, or a cancelled request; distinct = distinct scenario hash; the production Aliyun factory is driven separately (TestVerifC07Factory / TestVerifC07FactoryAttached): node histories of create/assign/unassign/delete/load calls over a fake OpenAPI and metadata service, plus LoadNetworkInterface with per-family lookup failures inside the node histories, and a one-node test of GetAttachedNetworkInterface with listing / per-interface lookup failures: an answer without error lists exactly what the metadata fake holds; any failed lookup yields an error",
         assumptions=_pool_assume + ["fault placements are drawn, not exhaustively enumerated; band asserted in the form the balancer can reach (idle as it counts it; primaries pinned by in-use siblings excluded from the upper bound)"],
         level_text="fault placements over the cloud-call sequence of each history are sampled by the generator (error before effect, after effect, partial result, per error code), combined with cancellation; at quiescence pool == cloud, no orphan, owners == ledger, idle within band",
         level_note="a case whose settle phase does not reach quiescence within the bounded wait is counted inconclusive - unless the pool is provably idle (no cloud call in flight, call log unchanged and no request queued for one second; the pool workers have no timers) while a slot still holds an interface in status Deleting that can be disposed: then the pool IS quiescent and the interface it gave up was not handed back (a lost wake-up), which is reported",
